@@ -44,6 +44,8 @@ LEVEL_NOTE = 'Trusted: the synthesised minimal input files; pickle determinism. 
 TECHNIQUE = 'exhaustive crash-point enumeration of the recorded write log + BFS over fault/recover histories, recovery through the real loaders'
 ASSUMPTIONS = ['a crash leaves a prefix of the bytes written so far (sequential write, no reordering)']
 
+FRESH_WORKER_PER_SHARD = True  # module-level state of the loaders must not leak from one shard into the next
+
 GARBAGE = [b'\0', b'not a pickle at all\n', b'\x80\x04', b'garbage' * 100, b'\x80\x04\x95\x10\x00\x00\x00\x00\x00\x00\x00\x8c\x03abc']
 
 
@@ -245,9 +247,12 @@ def run_shard(shard) -> Result:
             res.sample({'loader': loader, 'variant': _jsv(variant), 'write_log': [(e[0], Path(e[1]).name, len(e[2]) if e[0] == 'write' else e[2] if e[0] == 'open' else '') for e in log], 'crash_states': n})
         elif kind == 'pairs':
             v1 = variants[shard['v1']]
-            for v2i, v2 in enumerate(variants):
+            refs2 = []
+            for v2 in variants:  # all cache-less references first, before any other argument set has been used
                 env.clear_caches()
-                ref2, _, _ = reference(env, v2)
+                refs2.append(reference(env, v2)[0])
+            for v2i, v2 in enumerate(variants):
+                ref2 = refs2[v2i]
                 env.clear_caches()
                 env.load(v1)
                 got = env.load(v2)
